@@ -269,394 +269,7 @@ Fixpoint expr_scan (fuel : nat) (operand : bool) (ts : toks) : outcome unit :=
 Definition expr_all (ts : toks) : outcome unit :=
   if expr_toks_ok ts then expr_scan (2 * toks_size ts + 2) true ts else ood_expr.
 
-(** ** name-value expressions *)
-Definition classify_value (last : bool) (v : toks) : outcome nvexpr :=
-  match v with
-  | [] => Err E_syn
-  | [t] =>
-      if is_lit_tok t then Ok (XLit t)
-      else match parse_path_all v with
-           | Ok p => Ok (XPath p)
-           | _ =>
-               (* a lone keyword (or `_`) is not an expression for syn without "full" *)
-               match t with
-               | TIdent _ => Err E_syn
-               | _ => let* _ := expr_all v in Ok (XOther v)
-               end
-           end
-  | [TPunct "-"; t] =>
-      if is_num_lit t then Ok (if last then XNegLit t else XUnaryNeg t)
-      else let* _ := expr_all v in Ok (XOther v)
-  | _ =>
-      if has_angle v then OutOfDomain "name-value expression" else
-      match parse_path_all v with
-      | Ok p => Ok (XPath p)
-      | _ => let* _ := expr_all v in Ok (XOther v)
-      end
-  end.
-
-(** ** Punctuated<Meta, Token![,]>::parse_terminated *)
-Fixpoint split_commas (ts : toks) : list toks :=
-  match ts with
-  | [] => [[]]
-  | t :: r =>
-      if is_punct "," t then [] :: split_commas r
-      else match split_commas r with
-           | c :: cs => (t :: c) :: cs
-           | [] => [[t]]
-           end
-  end.
-
-Definition parse_meta_chunk (last : bool) (ts : toks) : outcome meta :=
-  match parse_mpath ts with
-  | None => Err E_syn
-  | Some (p, rest) =>
-      match rest with
-      | [] => Ok (MPath p)
-      | [TGroup d inner] => Ok (MList p d inner)
-      | TPunct "=" :: v => let* x := classify_value last v in Ok (MNameValue p x)
-      | _ => Err E_syn
-      end
-  end.
-
-
-Fixpoint parse_chunks (trailing : bool) (cs : list toks) : outcome (list meta) :=
-  match cs with
-  | [] => Ok []
-  | [c] => if trailing && is_nil c then Ok []
-           else let* m := parse_meta_chunk (negb trailing) c in Ok [m]
-  | c :: r => let* m := parse_meta_chunk false c in
-              let* ms := parse_chunks trailing r in Ok (m :: ms)
-  end.
-
-Definition parse_metas (ts : toks) : outcome (list meta) :=
-  match split_commas ts with
-  | [[]] => Ok []
-  | cs => parse_chunks (is_nil (last cs [])) cs
-  end.
-
-(** ** parse_args::<T>() for the small T's *)
-Definition args_lit_bool (ts : toks) : outcome bool :=
-  match ts with
-  | [t] => match is_bool_tok t with Some b => Ok b | None => Err E_syn end
-  | _ => Err E_syn
-  end.
-
 Definition ident_ok (s : string) : bool := negb (is_keyword s).
-
-Definition args_ident (ts : toks) : outcome string :=
-  match ts with
-  | [TIdent s] => if ident_ok s then Ok s else Err E_syn
-  | _ => Err E_syn
-  end.
-
-(** LitStr::parse::<T>() re-lexes the value *)
-Definition relex_of (r : option toks) : outcome toks :=
-  match r with Some ts => Ok ts | None => Err E_syn end.
-
-Definition str_parse_ident (relex : option toks) : outcome string :=
-  let* ts := relex_of relex in args_ident ts.
-Definition str_parse_path (relex : option toks) : outcome toks :=
-  let* ts := relex_of relex in parse_path_all ts.
-
-Definition str_empty (value : string) : bool := String.eqb value "".
-
-(** ** common/ident_bool.rs *)
-Definition meta_name_value_2_bool (v : nvexpr) : outcome bool :=
-  match v with
-  | XLit t => match is_bool_tok t with Some b => Ok b | None => Err E_syn end
-  | _ => Err E_syn
-  end.
-
-Definition meta_2_bool (m : meta) : outcome bool :=
-  match m with
-  | MNameValue _ v => meta_name_value_2_bool v
-  | MList _ _ ts => args_lit_bool ts
-  | MPath _ => Err E_syn
-  end.
-
-Definition meta_2_bool_allow_path (m : meta) : outcome bool :=
-  match m with
-  | MPath _ => Ok true
-  | MNameValue _ v => meta_name_value_2_bool v
-  | MList _ _ ts => args_lit_bool ts
-  end.
-
-Inductive ident_or_bool := IOBIdent (s : string) | IOBBool (b : bool).
-
-Definition str_ident_or_bool (value : string) (relex : option toks) : outcome ident_or_bool :=
-  match str_parse_ident relex with
-  | Ok s => Ok (IOBIdent s)
-  | Err e => if str_empty value then Ok (IOBBool false) else Err e
-  | Panic s => Panic s
-  | OutOfDomain w => OutOfDomain w
-  end.
-
-Definition meta_name_value_2_ident_and_bool (v : nvexpr) : outcome ident_or_bool :=
-  match v with
-  | XLit (TStr _ value relex) => str_ident_or_bool value relex
-  | XLit t => match is_bool_tok t with Some b => Ok (IOBBool b) | None => Err E_syn end
-  | XPath [TIdent s] => Ok (IOBIdent s)
-  | _ => Err E_syn
-  end.
-
-(** impl Parse for IdentOrBool, used through parse_args (whole input must be consumed).
-    A literal that is neither bool nor string is consumed and then an
-    identifier is expected. *)
-Definition args_ident_or_bool (ts : toks) : outcome ident_or_bool :=
-  match ts with
-  | [] => Err E_syn
-  | t :: r =>
-      match t with
-      | TStr _ value relex => let* x := str_ident_or_bool value relex in
-                              if is_nil r then Ok x else Err E_syn
-      | TLit _ _ => let* s := args_ident r in Ok (IOBIdent s)
-      | TPunct "-" =>
-          match r with
-          | n :: r' => if is_num_lit n then let* s := args_ident r' in Ok (IOBIdent s)
-                       else Err E_syn
-          | [] => Err E_syn
-          end
-      | _ =>
-          match is_bool_tok t with
-          | Some b => if is_nil r then Ok (IOBBool b) else Err E_syn
-          | None => let* s := args_ident ts in Ok (IOBIdent s)
-          end
-      end
-  end.
-
-Definition meta_2_ident_and_bool (m : meta) : outcome ident_or_bool :=
-  match m with
-  | MNameValue _ v => meta_name_value_2_ident_and_bool v
-  | MList _ _ ts => args_ident_or_bool ts
-  | MPath _ => Err E_syn
-  end.
-
-Definition meta_name_value_2_ident (v : nvexpr) : outcome string :=
-  match v with
-  | XLit (TStr _ _ relex) => str_parse_ident relex
-  | XPath [TIdent s] => Ok s
-  | _ => Err E_syn
-  end.
-
-Definition meta_2_ident (m : meta) : outcome string :=
-  match m with
-  | MNameValue _ v => meta_name_value_2_ident v
-  | MList _ _ ts =>
-      match ts with
-      | [TStr _ _ relex] => str_parse_ident relex
-      | _ => args_ident ts
-      end
-  | MPath _ => Err E_syn
-  end.
-
-(** ** common/path.rs *)
-Definition meta_name_value_2_path (v : nvexpr) : outcome toks :=
-  match v with
-  | XLit (TStr _ _ relex) => str_parse_path relex
-  | XPath p => Ok p
-  | _ => Err E_syn
-  end.
-
-Definition meta_2_path (m : meta) : outcome toks :=
-  match m with
-  | MNameValue _ v => meta_name_value_2_path v
-  | MList _ _ ts =>
-      match ts with
-      | [TStr _ _ relex] => str_parse_path relex
-      | _ => parse_path_all ts
-      end
-  | MPath _ => Err E_syn
-  end.
-
-(** ** common/where_predicates_bool.rs, common/bound.rs *)
-Fixpoint split_commas_angle (depth : nat) (ts : toks) : list toks :=
-  match ts with
-  | [] => [[]]
-  | t :: r =>
-      if is_punct "," t && Nat.eqb depth 0 then [] :: split_commas_angle 0 r
-      else
-        let depth' := if is_punct "<" t then S depth
-                      else if is_punct ">" t then Nat.pred depth else depth in
-        match split_commas_angle depth' r with
-        | c :: cs => (t :: c) :: cs
-        | [] => [[t]]
-        end
-  end.
-
-(** a where-predicate of the modelled domain: `lhs : rhs` with a top-level
-    colon that is not the first token *)
-Definition pred_ok (p : toks) : bool :=
-  match p with
-  | [] => false
-  | t :: r => negb (is_punct ":" t) && existsb (is_punct ":") r
-  end.
-
-Definition parse_where_predicates (ts : toks) : outcome (list toks) :=
-  match split_commas_angle 0 ts with
-  | [[]] => Ok []
-  | cs =>
-      let cs' := if is_nil (last cs []) then removelast cs else cs in
-      if forallb pred_ok cs' then Ok cs'
-      else if existsb is_nil cs' then Err E_syn
-      (* no `:` at all in a predicate: whatever is parsed first, the `:` is then missed *)
-      else if existsb (fun c => negb (existsb (is_punct ":") c)) cs' then Err E_syn
-      else OutOfDomain "where predicate"
-  end.
-
-Inductive bound :=
-| BDisabled
-| BAuto
-| BCustom (preds : list toks)
-| BAll.
-
-Definition bound_of_bool (b : bool) : bound := if b then BAuto else BDisabled.
-
-Definition bound_from_lit (t : tt) : outcome bound :=
-  match t with
-  | TStr _ value relex =>
-      match relex with
-      | Some ts =>
-          match parse_where_predicates ts with
-          | Ok ps => Ok (BCustom ps)
-          | Err e => if str_empty value then Ok BDisabled else Err e
-          | Panic s => Panic s
-          | OutOfDomain w => OutOfDomain w
-          end
-      | None => if str_empty value then Ok BDisabled else Err E_syn
-      end
-  | _ => match is_bool_tok t with
-         | Some b => Ok (bound_of_bool b)
-         | None => Err E_syn
-         end
-  end.
-
-Definition bound_from_meta (m : meta) : outcome bound :=
-  match m with
-  | MNameValue _ (XLit t) => bound_from_lit t
-  | MNameValue _ (XNegLit _) => Err E_syn
-  | MNameValue _ _ => Err E_syn
-  | MList _ _ ts =>
-      match ts with
-      | t :: r =>
-          if is_lit_tok t then
-            if is_nil r then bound_from_lit t
-            else (* the literal is consumed; a failing from_lit wins, otherwise
-                    parse_args complains about the trailing tokens *)
-              let* _ := bound_from_lit t in Err E_syn
-          else if is_punct "-" t then
-            match r with
-            | n :: _ => if is_num_lit n then Err E_syn
-                        else let* ps := parse_where_predicates ts in Ok (BCustom ps)
-            | [] => let* ps := parse_where_predicates ts in Ok (BCustom ps)
-            end
-          else if is_punct "*" t then
-            if is_nil r then Ok BAll else Err E_syn
-          else let* ps := parse_where_predicates ts in Ok (BCustom ps)
-      | [] => Ok (BCustom [])
-      end
-  | MPath _ => Err E_syn
-  end.
-
-(** ** common/unsafe_punctuated_meta.rs *)
-Definition parse_unsafe_metas (ts : toks) : outcome (bool * list meta) :=
-  match ts with
-  | TIdent "unsafe" :: r =>
-      match r with
-      | [] => Ok (true, [])
-      | TPunct "," :: r' => let* ms := parse_metas r' in Ok (true, ms)
-      | _ => Err E_syn
-      end
-  | [] => Ok (false, [])
-  | _ => let* ms := parse_metas ts in Ok (false, ms)
-  end.
-
-(** ** common/expr.rs *)
-(** parse_args::<Expr>() on the argument tokens of `expression(..)`: a lone
-    literal is [Expr::Lit]; `-1` is a unary minus here (no negative-literal
-    shortcut as in the name-value parser). *)
-Definition args_expr (ts : toks) : outcome nvexpr :=
-  match ts with
-  | [t] => if is_lit_tok t then Ok (XLit t)
-           else let* _ := expr_all ts in Ok (XOther ts)
-  | _ => let* _ := expr_all ts in Ok (XOther ts)
-  end.
-
-Definition meta_2_expr (m : meta) : outcome nvexpr :=
-  match m with
-  | MNameValue _ v => Ok v
-  | MList _ _ ts => args_expr ts
-  | MPath _ => Err E_syn
-  end.
-
-(** the tokens `quote!(#expr)` prints for a classified expression *)
-Definition nvexpr_toks (v : nvexpr) : toks :=
-  match v with
-  | XLit t => [t]
-  | XNegLit t => [TPunct "-"; t]      (* the fallback TokenStream splits a negative literal *)
-  | XUnaryNeg t => [TPunct "-"; t]
-  | XPath p => p
-  | XOther ts => ts
-  end.
-
-Definition int_types : list string :=
-  ["u8"; "u16"; "u32"; "u64"; "u128"; "usize"; "i8"; "i16"; "i32"; "i64"; "i128"; "isize"].
-Definition float_types : list string := ["f32"; "f64"].
-
-(** `Type::Path` whose token string can equal a bare name: a single identifier *)
-Definition ty_ident (ty : toks) : option string :=
-  match ty with [TIdent s] => Some s | _ => None end.
-Definition ty_ident_is (ty : toks) (names : list string) : bool :=
-  match ty_ident ty with Some s => mem_str s names | None => false end.
-(** `Type::Reference`: the tokens of its element type *)
-Definition ty_ref_elem (ty : toks) : option toks :=
-  match ty with
-  | TPunct "&" :: r =>
-      let r1 := match r with TLife _ :: r' => r' | _ => r end in
-      Some (match r1 with TIdent "mut" :: r' => r' | _ => r1 end)
-  | _ => None
-  end.
-
-(** auto_adjust_expr, the test "don't call into": the literal [t] is of the
-    natural kind of the field type [ty] *)
-Definition lit_natural (t : tt) (ty : toks) : bool :=
-  match t with
-  | TLit (LKInt _ suffix) _ =>
-      match ty_ident ty with
-      | Some s => String.eqb suffix s || mem_str s int_types
-      | None => false
-      end
-  | TLit (LKFloat suffix) _ =>
-      match ty_ident ty with
-      | Some s => String.eqb suffix s || mem_str s float_types
-      | None => false
-      end
-  | TStr _ _ _ =>
-      match ty_ref_elem ty with
-      | Some e => ty_ident_is e ["str"]
-      | None => false
-      end
-  | TIdent _ => ty_ident_is ty ["bool"]          (* Lit::Bool *)
-  | TLit LKChar _ => ty_ident_is ty ["char"]
-  | TLit LKByte _ => ty_ident_is ty ["u8"]
-  | TLit LKByteStr _ =>
-      match ty_ref_elem ty with
-      | Some [TGroup Bracket (TIdent "u8" :: TPunct ";" :: _)] => true
-      | _ => false
-      end
-  | _ => false                                   (* C-string literals *)
-  end.
-
-(** [Some tokens] = the expression is a bare literal that must be wrapped in
-    `::core::convert::Into::into(..)`; [None] = spliced as written *)
-Definition needs_into (v : nvexpr) (ty : option toks) : bool :=
-  let lit t := match ty with Some ty => negb (lit_natural t ty) | None => true end in
-  match v with
-  | XLit t | XNegLit t => lit t
-  | XUnaryNeg t => lit t                      (* Expr::Unary(Neg, Expr::Lit(Int | Float)) *)
-  | XOther [TPunct "-"; t] => if is_num_lit t then lit t else false
-  | _ => false
-  end.
 
 (** ** syn::Type::parse on a prefix of a token list (syn 2.0.119, ty.rs: ambig_ty)
 
@@ -769,13 +382,13 @@ Fixpoint ty_rest (n : nat) (plus : bool) (ts : toks) {struct n} : outcome toks :
             (* qpath: < Type [as Path] > :: segments ; returned at once (no `+`, no macro) *)
             let* r1 := ty_rest n true r in
             let* r2 := match after_ident "as" r1 with
-                       | Some r' => let* x := path_rest n (skip_punct "::" r') in Ok (fst x)
+                       | Some r' => let* x := path_rest n false (skip_punct "::" r') in Ok (fst x)
                        | None => Ok r1
                        end in
             match after_punct ">" r2 with
             | Some r2' =>
                 match after_punct "::" r2' with
-                | Some r3 => let* x := path_rest n r3 in Ok (fst x)
+                | Some r3 => let* x := path_rest n false r3 in Ok (fst x)
                 | None => Err E_syn
                 end
             | None => Err E_syn
@@ -790,7 +403,7 @@ Fixpoint ty_rest (n : nat) (plus : bool) (ts : toks) {struct n} : outcome toks :
                 if mem_str k fn_kw then bare_fn n (snd br)
                 else if mod_seg_ok k then
                   (* for<..> Path [+ bounds] : a bare trait object (the `Fn(A)` sugar is not parsed here) *)
-                  let* x := path_rest n (snd br) in
+                  let* x := path_rest n false (snd br) in
                   if starts_with_punct "!" (fst x) then OutOfDomain "type: for<..> macro"
                   else if plus && starts_with_punct "+" (fst x)
                   then let* y := bounds_tail n (fst x) in Ok (fst y)
@@ -828,7 +441,7 @@ Fixpoint ty_rest (n : nat) (plus : bool) (ts : toks) {struct n} : outcome toks :
                 if plus && starts_with_punct "+" r then
                   (* `(Path) + ..` is a bare trait object; any other parenthesised type keeps the `+` out *)
                   if starts_with_punct "<" inner then Ok r
-                  else match path_rest n (skip_punct "::" inner) with
+                  else match path_rest n false (skip_punct "::" inner) with
                        | Ok ([], _) => paren_tail n r
                        | _ => Ok r
                        end
@@ -863,7 +476,7 @@ with path_type (n : nat) (plus : bool) (ts : toks) {struct n} : outcome toks :=
   match n with
   | 0 => OutOfDomain "type: fuel"
   | S n =>
-    let* x := path_rest n ts in
+    let* x := path_rest n false ts in
     let r := fst x in
     match after_punct "!" r with
     | Some r' =>
@@ -879,9 +492,10 @@ with path_type (n : nat) (plus : bool) (ts : toks) {struct n} : outcome toks :=
               else Ok r
     end
   end
-(* Path::parse_helper (type style), positioned at a segment; also tells what
-   generic arguments the last segment carries: 0 none, 1 `<>`, 2 non-empty *)
-with path_rest (n : nat) (ts : toks) {struct n} : outcome (toks * nat) :=
+(* Path::parse_helper, positioned at a segment; [es] is syn's [expr_style] (generic arguments only
+   behind the `::` turbofish); also tells what generic arguments the last segment carries:
+   0 none, 1 `<>`, 2 non-empty *)
+with path_rest (n : nat) (es : bool) (ts : toks) {struct n} : outcome (toks * nat) :=
   match n with
   | 0 => OutOfDomain "type: fuel"
   | S n =>
@@ -892,14 +506,14 @@ with path_rest (n : nat) (ts : toks) {struct n} : outcome (toks * nat) :=
           let cont (r : toks) (has : nat) : outcome (toks * nat) :=
             (* parse_rest: `while input.peek(::) && !input.peek3(Paren)` *)
             match after_punct "::" r with
-            | Some r' => if starts_with_paren r' then Ok (r, has) else path_rest n r'
+            | Some r' => if starts_with_paren r' then Ok (r, has) else path_rest n es r'
             | None => Ok (r, has)
             end in
           let args (r' : toks) : outcome (toks * nat) :=
             let* r'' := gargs_rest n r' in cont r'' (if starts_with_punct ">" r' then 1 else 2) in
           if mem_str s path_noargs_kw then cont r 0
           else
-            match after_punct "<" r with
+            match (if es then None else after_punct "<" r) with
             | Some r' =>
                 if starts_with_punct "=" r' then OutOfDomain "type: `<=` after a path" else args r'
             | None =>
@@ -925,7 +539,9 @@ with gargs_rest (n : nat) (ts : toks) {struct n} : outcome toks :=
         match ts with
         | [] => Err E_syn
         | TLife _ :: r => if starts_with_punct "+" r then ty_rest n true ts else Ok r
-        | TGroup Brace _ :: r => Ok r
+        | TGroup Brace inner :: r =>
+            (* const_argument without syn's "full" feature: the block's content is one expression *)
+            let* _ := expr_all inner in Ok r
         | t :: r =>
             if is_punct "-" t then
               match r with
@@ -1080,7 +696,7 @@ with trait_bound (n : nat) (ts : toks) {struct n} : outcome toks :=
     let maybe := starts_with_punct "?" (snd b1) in
     let r1 := if maybe then tl (snd b1) else snd b1 in
     let* b2 := (if negb (fst b1) && maybe then opt_binder r1 else Ok (fst b1, r1)) in
-    let* x := path_rest n (skip_punct "::" (snd b2)) in
+    let* x := path_rest n false (skip_punct "::" (snd b2)) in
     let* r3 :=
       (if Nat.eqb (snd x) 2 then Ok (fst x)
        else if Nat.eqb (snd x) 1 && (starts_with_paren (fst x) || starts_with_paren (skip_punct "::" (fst x)))
@@ -1104,6 +720,507 @@ with trait_bound (n : nat) (ts : toks) {struct n} : outcome toks :=
               | None => Ok (fst x)
               end) in
     if fst b2 && maybe then Err E_syn else Ok r3
+  end.
+
+(** ** paths with generic arguments (syn 2.0.119, path.rs)
+
+    [syn::Path::parse] is [Path::parse_helper] with [expr_style = false]: a segment takes its
+    generic arguments with or without the `::` turbofish (`g::m<0>`, `g::m::<0>`).  The path of
+    an expression ([Expr::Path], expr.rs: path_or_macro_or_struct -> path::parsing::qpath with
+    [expr_style = true]) takes them only behind `::`, and may start with a qualified self
+    `<T as A>::f`.  The arguments are those of the type recogniser above ([gargs_rest]):
+    lifetimes, types, literals, `-literal`, `{ expr }` blocks, `_`, `Assoc = Type`, a trailing
+    comma.  Printing a parsed path reproduces its tokens. *)
+Definition path_fuel (ts : toks) : nat := 4 * toks_size ts + 8.
+
+(** [Path::parse_helper] on a prefix: the tokens of the path and what follows *)
+Definition path_prefix (es : bool) (ts : toks) : outcome (toks * toks) :=
+  let* x := path_rest (path_fuel ts) es (skip_punct "::" ts) in
+  Ok (firstn (List.length ts - List.length (fst x)) ts, fst x).
+
+(** [syn::Path::parse] on a whole token list that carries `<` or `>` *)
+Definition parse_path_generic (ts : toks) : outcome toks :=
+  let* x := path_prefix false ts in
+  if is_nil (snd x) then Ok ts else Err E_syn.
+
+(** [parse_args::<Path>()] / [LitStr::parse::<Path>()]: paths without generic arguments are
+    handled by [parse_path_all] as before *)
+Definition parse_path_ty (ts : toks) : outcome toks :=
+  if has_angle ts then parse_path_generic ts else parse_path_all ts.
+
+(** [path::parsing::qpath] with [expr_style = true] on a prefix: the tokens of the resulting
+    [Path] -- for `<T as A>::f` that is `A::f`, for `<T>::f` it is `::f`: educe keeps
+    [ExprPath::path] and drops the qualified self -- and what follows *)
+Definition qpath_expr (ts : toks) : outcome (toks * toks) :=
+  match after_punct "<" ts with
+  | None => path_prefix true ts
+  | Some r =>
+      let n := path_fuel ts in
+      let* r1 := ty_rest n true r in
+      let* asp := match after_ident "as" r1 with
+                  | Some r' => let* x := path_prefix false r' in Ok (fst x, snd x)
+                  | None => Ok ([], r1)
+                  end in
+      match after_punct ">" (snd asp) with
+      | Some r2 =>
+          match after_punct "::" r2 with
+          | Some r3 =>
+              let* x := path_rest n true r3 in
+              (* the segment loop of qpath has no look-ahead for `::(` *)
+              if starts_with_punct "::" (fst x) then Err E_syn
+              else Ok (fst asp ++ TPunct "::" :: firstn (List.length r3 - List.length (fst x)) r3, fst x)
+          | None => Err E_syn
+          end
+      | None => Err E_syn
+      end
+  end.
+
+Definition count_punct (s : string) (ts : toks) : nat :=
+  List.length (filter (is_punct s) ts).
+(** more `<` than `>`: generic arguments that are still open at the end of the tokens *)
+Definition angle_open (ts : toks) : bool := Nat.ltb (count_punct ">" ts) (count_punct "<" ts).
+
+(** [syn::Expr::parse] (without "full") on a whole token list that carries `<` or `>`.
+    Decided: the list is one path expression (Ok: [Expr::Path], printed as written); the path
+    parser fails (Err); a path directly followed by `< x >` or `< x <` with [x] one literal or
+    identifier -- the type-style spelling `g::m<0>` read as an expression -- which syn refuses
+    ("comparison operators cannot be chained").  Everything else with `<` `>` is out of the
+    modelled domain. *)
+Definition path_start_ok (ts : toks) : bool :=
+  match ts with
+  | TIdent s :: _ => mod_seg_ok s
+  | TPunct p :: _ => String.eqb p "::" || String.eqb p "<"
+  | _ => false
+  end.
+Definition simple_operand (t : tt) : bool :=
+  match t with
+  | TIdent s => is_lit_tok t || negb (is_keyword s)
+  | _ => is_lit_tok t
+  end.
+Definition ood_nv {A} : outcome A := OutOfDomain "name-value expression".
+Definition ood_cut {A} : outcome A :=
+  OutOfDomain "name-value expression: generic arguments continue after a comma".
+(** [cut]: the tokens end at a top-level comma of the enclosing meta list and generic
+    arguments may still be open there (see [classify_angle]): the comma then belongs to them,
+    and a failure of the path parser (possibly at the end of the tokens) proves nothing *)
+Definition angle_expr (cut : bool) (ts : toks) : outcome nvexpr :=
+  if path_start_ok ts then
+    match qpath_expr ts with
+    | Ok x =>
+        match snd x with
+        | [] => Ok (XOther ts)      (* the path ended by itself: the same before a comma *)
+        | lt :: a :: c :: r =>
+            if is_punct "<" lt && simple_operand a then
+              if is_punct ">" c && negb (starts_with_punct ">" r) then Err E_syn
+              else if is_punct "<" c && negb (starts_with_punct "<" r) then Err E_syn
+              else ood_nv
+            else ood_nv
+        | _ => ood_nv
+        end
+    | Err e => if cut then ood_cut else Err e
+    | Panic s => Panic s
+    | OutOfDomain w => OutOfDomain w
+    end
+  else ood_nv.
+
+(** the value of `name = value` when it carries `<` or `>`.  The meta list was cut at its
+    top-level commas: when a comma follows ([last] = false) and there are more `<` than `>`,
+    generic arguments may still be open at the end of the value *)
+Definition classify_angle (last : bool) (v : toks) : outcome nvexpr :=
+  angle_expr (negb last && angle_open v) v.
+
+(** ** name-value expressions *)
+Definition classify_value (last : bool) (v : toks) : outcome nvexpr :=
+  match v with
+  | [] => Err E_syn
+  | [t] =>
+      if is_lit_tok t then Ok (XLit t)
+      else match parse_path_all v with
+           | Ok p => Ok (XPath p)
+           | _ =>
+               (* a lone keyword (or `_`) is not an expression for syn without "full" *)
+               match t with
+               | TIdent _ => Err E_syn
+               | _ => let* _ := expr_all v in Ok (XOther v)
+               end
+           end
+  | [TPunct "-"; t] =>
+      if is_num_lit t then Ok (if last then XNegLit t else XUnaryNeg t)
+      else let* _ := expr_all v in Ok (XOther v)
+  | _ =>
+      if has_angle v then classify_angle last v else
+      match parse_path_all v with
+      | Ok p => Ok (XPath p)
+      | _ => let* _ := expr_all v in Ok (XOther v)
+      end
+  end.
+
+(** ** Punctuated<Meta, Token![,]>::parse_terminated *)
+Fixpoint split_commas (ts : toks) : list toks :=
+  match ts with
+  | [] => [[]]
+  | t :: r =>
+      if is_punct "," t then [] :: split_commas r
+      else match split_commas r with
+           | c :: cs => (t :: c) :: cs
+           | [] => [[t]]
+           end
+  end.
+
+Definition parse_meta_chunk (last : bool) (ts : toks) : outcome meta :=
+  match parse_mpath ts with
+  | None => Err E_syn
+  | Some (p, rest) =>
+      match rest with
+      | [] => Ok (MPath p)
+      | [TGroup d inner] => Ok (MList p d inner)
+      | TPunct "=" :: v => let* x := classify_value last v in Ok (MNameValue p x)
+      | _ => Err E_syn
+      end
+  end.
+
+
+Fixpoint parse_chunks (trailing : bool) (cs : list toks) : outcome (list meta) :=
+  match cs with
+  | [] => Ok []
+  | [c] => if trailing && is_nil c then Ok []
+           else let* m := parse_meta_chunk (negb trailing) c in Ok [m]
+  | c :: r => let* m := parse_meta_chunk false c in
+              let* ms := parse_chunks trailing r in Ok (m :: ms)
+  end.
+
+Definition parse_metas (ts : toks) : outcome (list meta) :=
+  match split_commas ts with
+  | [[]] => Ok []
+  | cs => parse_chunks (is_nil (last cs [])) cs
+  end.
+
+(** ** parse_args::<T>() for the small T's *)
+Definition args_lit_bool (ts : toks) : outcome bool :=
+  match ts with
+  | [t] => match is_bool_tok t with Some b => Ok b | None => Err E_syn end
+  | _ => Err E_syn
+  end.
+
+Definition args_ident (ts : toks) : outcome string :=
+  match ts with
+  | [TIdent s] => if ident_ok s then Ok s else Err E_syn
+  | _ => Err E_syn
+  end.
+
+(** LitStr::parse::<T>() re-lexes the value *)
+Definition relex_of (r : option toks) : outcome toks :=
+  match r with Some ts => Ok ts | None => Err E_syn end.
+
+Definition str_parse_ident (relex : option toks) : outcome string :=
+  let* ts := relex_of relex in args_ident ts.
+Definition str_parse_path (relex : option toks) : outcome toks :=
+  let* ts := relex_of relex in parse_path_ty ts.
+
+Definition str_empty (value : string) : bool := String.eqb value "".
+
+(** ** common/ident_bool.rs *)
+Definition meta_name_value_2_bool (v : nvexpr) : outcome bool :=
+  match v with
+  | XLit t => match is_bool_tok t with Some b => Ok b | None => Err E_syn end
+  | _ => Err E_syn
+  end.
+
+Definition meta_2_bool (m : meta) : outcome bool :=
+  match m with
+  | MNameValue _ v => meta_name_value_2_bool v
+  | MList _ _ ts => args_lit_bool ts
+  | MPath _ => Err E_syn
+  end.
+
+Definition meta_2_bool_allow_path (m : meta) : outcome bool :=
+  match m with
+  | MPath _ => Ok true
+  | MNameValue _ v => meta_name_value_2_bool v
+  | MList _ _ ts => args_lit_bool ts
+  end.
+
+Inductive ident_or_bool := IOBIdent (s : string) | IOBBool (b : bool).
+
+Definition str_ident_or_bool (value : string) (relex : option toks) : outcome ident_or_bool :=
+  match str_parse_ident relex with
+  | Ok s => Ok (IOBIdent s)
+  | Err e => if str_empty value then Ok (IOBBool false) else Err e
+  | Panic s => Panic s
+  | OutOfDomain w => OutOfDomain w
+  end.
+
+Definition meta_name_value_2_ident_and_bool (v : nvexpr) : outcome ident_or_bool :=
+  match v with
+  | XLit (TStr _ value relex) => str_ident_or_bool value relex
+  | XLit t => match is_bool_tok t with Some b => Ok (IOBBool b) | None => Err E_syn end
+  | XPath [TIdent s] => Ok (IOBIdent s)
+  | _ => Err E_syn
+  end.
+
+(** impl Parse for IdentOrBool, used through parse_args (whole input must be consumed).
+    A literal that is neither bool nor string is consumed and then an
+    identifier is expected. *)
+Definition args_ident_or_bool (ts : toks) : outcome ident_or_bool :=
+  match ts with
+  | [] => Err E_syn
+  | t :: r =>
+      match t with
+      | TStr _ value relex => let* x := str_ident_or_bool value relex in
+                              if is_nil r then Ok x else Err E_syn
+      | TLit _ _ => let* s := args_ident r in Ok (IOBIdent s)
+      | TPunct "-" =>
+          match r with
+          | n :: r' => if is_num_lit n then let* s := args_ident r' in Ok (IOBIdent s)
+                       else Err E_syn
+          | [] => Err E_syn
+          end
+      | _ =>
+          match is_bool_tok t with
+          | Some b => if is_nil r then Ok (IOBBool b) else Err E_syn
+          | None => let* s := args_ident ts in Ok (IOBIdent s)
+          end
+      end
+  end.
+
+Definition meta_2_ident_and_bool (m : meta) : outcome ident_or_bool :=
+  match m with
+  | MNameValue _ v => meta_name_value_2_ident_and_bool v
+  | MList _ _ ts => args_ident_or_bool ts
+  | MPath _ => Err E_syn
+  end.
+
+Definition meta_name_value_2_ident (v : nvexpr) : outcome string :=
+  match v with
+  | XLit (TStr _ _ relex) => str_parse_ident relex
+  | XPath [TIdent s] => Ok s
+  | _ => Err E_syn
+  end.
+
+Definition meta_2_ident (m : meta) : outcome string :=
+  match m with
+  | MNameValue _ v => meta_name_value_2_ident v
+  | MList _ _ ts =>
+      match ts with
+      | [TStr _ _ relex] => str_parse_ident relex
+      | _ => args_ident ts
+      end
+  | MPath _ => Err E_syn
+  end.
+
+(** ** common/path.rs *)
+Definition meta_name_value_2_path (v : nvexpr) : outcome toks :=
+  match v with
+  | XLit (TStr _ _ relex) => str_parse_path relex
+  | XPath p => Ok p
+  | XOther e =>
+      (* [Expr::Path] with generic arguments or a qualified self (see [angle_expr]): its [.path] *)
+      if has_angle e then
+        let* x := qpath_expr e in
+        if is_nil (snd x) then Ok (fst x) else Err E_syn
+      else Err E_syn
+  | _ => Err E_syn
+  end.
+
+Definition meta_2_path (m : meta) : outcome toks :=
+  match m with
+  | MNameValue _ v => meta_name_value_2_path v
+  | MList _ _ ts =>
+      match ts with
+      | [TStr _ _ relex] => str_parse_path relex
+      | _ => parse_path_ty ts
+      end
+  | MPath _ => Err E_syn
+  end.
+
+(** ** common/where_predicates_bool.rs, common/bound.rs *)
+Fixpoint split_commas_angle (depth : nat) (ts : toks) : list toks :=
+  match ts with
+  | [] => [[]]
+  | t :: r =>
+      if is_punct "," t && Nat.eqb depth 0 then [] :: split_commas_angle 0 r
+      else
+        let depth' := if is_punct "<" t then S depth
+                      else if is_punct ">" t then Nat.pred depth else depth in
+        match split_commas_angle depth' r with
+        | c :: cs => (t :: c) :: cs
+        | [] => [[t]]
+        end
+  end.
+
+(** a where-predicate of the modelled domain: `lhs : rhs` with a top-level
+    colon that is not the first token *)
+Definition pred_ok (p : toks) : bool :=
+  match p with
+  | [] => false
+  | t :: r => negb (is_punct ":" t) && existsb (is_punct ":") r
+  end.
+
+Definition parse_where_predicates (ts : toks) : outcome (list toks) :=
+  match split_commas_angle 0 ts with
+  | [[]] => Ok []
+  | cs =>
+      let cs' := if is_nil (last cs []) then removelast cs else cs in
+      if forallb pred_ok cs' then Ok cs'
+      else if existsb is_nil cs' then Err E_syn
+      (* no `:` at all in a predicate: whatever is parsed first, the `:` is then missed *)
+      else if existsb (fun c => negb (existsb (is_punct ":") c)) cs' then Err E_syn
+      else OutOfDomain "where predicate"
+  end.
+
+Inductive bound :=
+| BDisabled
+| BAuto
+| BCustom (preds : list toks)
+| BAll.
+
+Definition bound_of_bool (b : bool) : bound := if b then BAuto else BDisabled.
+
+Definition bound_from_lit (t : tt) : outcome bound :=
+  match t with
+  | TStr _ value relex =>
+      match relex with
+      | Some ts =>
+          match parse_where_predicates ts with
+          | Ok ps => Ok (BCustom ps)
+          | Err e => if str_empty value then Ok BDisabled else Err e
+          | Panic s => Panic s
+          | OutOfDomain w => OutOfDomain w
+          end
+      | None => if str_empty value then Ok BDisabled else Err E_syn
+      end
+  | _ => match is_bool_tok t with
+         | Some b => Ok (bound_of_bool b)
+         | None => Err E_syn
+         end
+  end.
+
+Definition bound_from_meta (m : meta) : outcome bound :=
+  match m with
+  | MNameValue _ (XLit t) => bound_from_lit t
+  | MNameValue _ (XNegLit _) => Err E_syn
+  | MNameValue _ _ => Err E_syn
+  | MList _ _ ts =>
+      match ts with
+      | t :: r =>
+          if is_lit_tok t then
+            if is_nil r then bound_from_lit t
+            else (* the literal is consumed; a failing from_lit wins, otherwise
+                    parse_args complains about the trailing tokens *)
+              let* _ := bound_from_lit t in Err E_syn
+          else if is_punct "-" t then
+            match r with
+            | n :: _ => if is_num_lit n then Err E_syn
+                        else let* ps := parse_where_predicates ts in Ok (BCustom ps)
+            | [] => let* ps := parse_where_predicates ts in Ok (BCustom ps)
+            end
+          else if is_punct "*" t then
+            if is_nil r then Ok BAll else Err E_syn
+          else let* ps := parse_where_predicates ts in Ok (BCustom ps)
+      | [] => Ok (BCustom [])
+      end
+  | MPath _ => Err E_syn
+  end.
+
+(** ** common/unsafe_punctuated_meta.rs *)
+Definition parse_unsafe_metas (ts : toks) : outcome (bool * list meta) :=
+  match ts with
+  | TIdent "unsafe" :: r =>
+      match r with
+      | [] => Ok (true, [])
+      | TPunct "," :: r' => let* ms := parse_metas r' in Ok (true, ms)
+      | _ => Err E_syn
+      end
+  | [] => Ok (false, [])
+  | _ => let* ms := parse_metas ts in Ok (false, ms)
+  end.
+
+(** ** common/expr.rs *)
+(** parse_args::<Expr>() on the argument tokens of `expression(..)`: a lone
+    literal is [Expr::Lit]; `-1` is a unary minus here (no negative-literal
+    shortcut as in the name-value parser). *)
+Definition args_expr (ts : toks) : outcome nvexpr :=
+  match ts with
+  | [t] => if is_lit_tok t then Ok (XLit t)
+           else let* _ := expr_all ts in Ok (XOther ts)
+  | _ => if has_angle ts then angle_expr false ts
+         else let* _ := expr_all ts in Ok (XOther ts)
+  end.
+
+Definition meta_2_expr (m : meta) : outcome nvexpr :=
+  match m with
+  | MNameValue _ v => Ok v
+  | MList _ _ ts => args_expr ts
+  | MPath _ => Err E_syn
+  end.
+
+(** the tokens `quote!(#expr)` prints for a classified expression *)
+Definition nvexpr_toks (v : nvexpr) : toks :=
+  match v with
+  | XLit t => [t]
+  | XNegLit t => [TPunct "-"; t]      (* the fallback TokenStream splits a negative literal *)
+  | XUnaryNeg t => [TPunct "-"; t]
+  | XPath p => p
+  | XOther ts => ts
+  end.
+
+Definition int_types : list string :=
+  ["u8"; "u16"; "u32"; "u64"; "u128"; "usize"; "i8"; "i16"; "i32"; "i64"; "i128"; "isize"].
+Definition float_types : list string := ["f32"; "f64"].
+
+(** `Type::Path` whose token string can equal a bare name: a single identifier *)
+Definition ty_ident (ty : toks) : option string :=
+  match ty with [TIdent s] => Some s | _ => None end.
+Definition ty_ident_is (ty : toks) (names : list string) : bool :=
+  match ty_ident ty with Some s => mem_str s names | None => false end.
+(** `Type::Reference`: the tokens of its element type *)
+Definition ty_ref_elem (ty : toks) : option toks :=
+  match ty with
+  | TPunct "&" :: r =>
+      let r1 := match r with TLife _ :: r' => r' | _ => r end in
+      Some (match r1 with TIdent "mut" :: r' => r' | _ => r1 end)
+  | _ => None
+  end.
+
+(** auto_adjust_expr, the test "don't call into": the literal [t] is of the
+    natural kind of the field type [ty] *)
+Definition lit_natural (t : tt) (ty : toks) : bool :=
+  match t with
+  | TLit (LKInt _ suffix) _ =>
+      match ty_ident ty with
+      | Some s => String.eqb suffix s || mem_str s int_types
+      | None => false
+      end
+  | TLit (LKFloat suffix) _ =>
+      match ty_ident ty with
+      | Some s => String.eqb suffix s || mem_str s float_types
+      | None => false
+      end
+  | TStr _ _ _ =>
+      match ty_ref_elem ty with
+      | Some e => ty_ident_is e ["str"]
+      | None => false
+      end
+  | TIdent _ => ty_ident_is ty ["bool"]          (* Lit::Bool *)
+  | TLit LKChar _ => ty_ident_is ty ["char"]
+  | TLit LKByte _ => ty_ident_is ty ["u8"]
+  | TLit LKByteStr _ =>
+      match ty_ref_elem ty with
+      | Some [TGroup Bracket (TIdent "u8" :: TPunct ";" :: _)] => true
+      | _ => false
+      end
+  | _ => false                                   (* C-string literals *)
+  end.
+
+(** [Some tokens] = the expression is a bare literal that must be wrapped in
+    `::core::convert::Into::into(..)`; [None] = spliced as written *)
+Definition needs_into (v : nvexpr) (ty : option toks) : bool :=
+  let lit t := match ty with Some ty => negb (lit_natural t ty) | None => true end in
+  match v with
+  | XLit t | XNegLit t => lit t
+  | XUnaryNeg t => lit t                      (* Expr::Unary(Neg, Expr::Lit(Int | Float)) *)
+  | XOther [TPunct "-"; t] => if is_num_lit t then lit t else false
+  | _ => false
   end.
 
 (** [input.parse::<Type>()] : the type's tokens and what follows *)
